@@ -203,6 +203,15 @@ def impl(t, case):
         r = tree.get_first_ancestor_of_type(x, cs if len(cs) > 1 or A(x) % 2 else cs[0], exact_type=ex)
         return opt(A, r)
 
+    # query ORDER: on every other case the binary (relative) queries are asked first, deepest nodes first, before any
+    # absolute query has touched the Tree object - whatever the Tree remembers between calls must not depend on it
+    # (seeded change C06-10: a depth memo also written by relative walks)
+    if len(objs) % 2:
+        for x in reversed(objs):
+            for y in objs:
+                _q(lambda: tree.get_depth(x, y))
+                _q(lambda: tree.get_depth(x, relative_to=y, check_ancestor=False))
+                _q(lambda: tree.is_ancestor(x, y))
     un = []
     for x in objs:
         un.append(Con("Q", A(x), _q(lambda: tree.is_in_tree(x)), _q(lambda: tree.is_root(x)),
